@@ -148,6 +148,7 @@ def strata():
             gen_cfg.model_and_spec(want_mc=True, force=['prefix_ports', 'many_ports']),
             gen_cfg.model_and_spec(force=['prefix_ports', 'many_ports'], want_mixed=True),
             gen_cfg.model_and_spec(force=['shared_itf', 'many_ports']),
+            gen_cfg.model_and_spec(force=['big'], want_mixed='MSM'),
             gen_cfg.model_and_spec(force=['one_way_itf', 'many_ports'], prov_sem='MTS', want_mixed='MS'),
             gen_cfg.model_and_spec()]
 
